@@ -26,7 +26,8 @@ from spatialmath.super_pose import SMPose  # noqa: E402
 CLASSES = {'SO2': SO2, 'SE2': SE2, 'SO3': SO3, 'SE3': SE3, 'Quaternion': Quaternion,
            'UnitQuaternion': UnitQuaternion, 'Twist2': Twist2, 'Twist3': Twist3}
 POSES = ('SO2', 'SE2', 'SO3', 'SE3')
-LENS = (1, 2, 3, 4, 5)
+NMAX = 6                                  # 1..5 is the property's range; 6 is added so that the length also coincides with the
+LENS = tuple(range(1, NMAX + 1))          # element dimension of twists (6), besides quaternions (4) and 3x3 matrices (3)
 COQ_HEADER = ("From Coq Require Import List Arith.\nFrom SM Require Import Model.C09_Broadcast.\n"
               "Import ListNotations.\n")
 
@@ -434,17 +435,17 @@ def operator_grid_pool(ctx, MT):
     rng = ctx.rng
     for cn in CLASSES:
         # one pool of generic elements per class and run: left elements A[0..4], right elements B[0..4]
-        A = [elem(cn, rng) for _ in range(5)]
-        B = [elem(cn, rng) for _ in range(5)]
+        A = [elem(cn, rng) for _ in range(NMAX)]
+        B = [elem(cn, rng) for _ in range(NMAX)]
         for opname, op, dunder in BINOPS:
             if not defined_in_library(cn, dunder):
                 ctx.stats.setdefault('out-of-scope', []).append(f"{cn}{opname}: not defined by the library (inherited from UserList/object) -- C08")
                 continue
             As, Bs = singles(mk(cn, A)), singles(mk(cn, B))
-            table = [[None] * 5 for _ in range(5)]
+            table = [[None] * NMAX for _ in range(NMAX)]
             ok = True
-            for i in range(5):
-                for j in range(5):
+            for i in range(NMAX):
+                for j in range(NMAX):
                     r = call(lambda: op(As[i], Bs[j]))
                     v = single_value(r[1]) if r[0] == 'ok' else None
                     if v is None:
@@ -462,7 +463,7 @@ def operator_grid_pool(ctx, MT):
                                {'class': cn, 'op': opname, 'm': m, 'n': n, 'left_hex': [hexl(a) for a in A[:m]], 'right_hex': [hexl(b) for b in B[:n]]}, dunder=dunder)
             # scalar right operand
             s = 1.75
-            rs = [call(lambda: op(As[i], s)) for i in range(5)]
+            rs = [call(lambda: op(As[i], s)) for i in range(NMAX)]
             if all(r[0] == 'ok' and single_value(r[1]) is not None for r in rs):
                 stab = [[single_value(r[1])] for r in rs]
                 for m in LENS:
@@ -474,7 +475,7 @@ def operator_grid_pool(ctx, MT):
         # scalar * X  (__rmul__)
         s = 1.75
         As = singles(mk(cn, A))
-        rs = [call(lambda: s * As[i]) for i in range(5)]
+        rs = [call(lambda: s * As[i]) for i in range(NMAX)]
         if all(r[0] == 'ok' and single_value(r[1]) is not None for r in rs):
             stab = [[single_value(r[1])] for r in rs]
             for m in LENS:
@@ -488,9 +489,9 @@ def operator_grid_pool(ctx, MT):
         # twist * pose (binop with operands of two classes)
         if cn in ('Twist3', 'Twist2'):
             pn = 'SE3' if cn == 'Twist3' else 'SE2'
-            Bp = [elem(pn, rng) for _ in range(5)]
+            Bp = [elem(pn, rng) for _ in range(NMAX)]
             As, Bs = singles(mk(cn, A)), singles(mk(pn, Bp))
-            table = [[single_value(As[i] * Bs[j]) for j in range(5)] for i in range(5)]
+            table = [[single_value(As[i] * Bs[j]) for j in range(NMAX)] for i in range(NMAX)]
             for m in LENS:
                 for n in LENS:
                     L, R = mk(cn, A[:m]), mk(pn, Bp[:n])
@@ -534,7 +535,7 @@ def operator_grid_pool(ctx, MT):
         if defined_in_library(cn, '__pow__'):
             As = singles(mk(cn, A))
             for e in (-2, -1, 0, 1, 2, 3):
-                refs = [call(lambda: As[i] ** e) for i in range(5)]
+                refs = [call(lambda: As[i] ** e) for i in range(NMAX)]
                 if not all(r[0] == 'ok' and single_value(r[1]) is not None for r in refs):
                     ctx.stats.setdefault('out-of-scope', []).append(f"{cn}**{e}: single-valued power not available")
                     continue
@@ -549,8 +550,8 @@ def operator_grid_pool(ctx, MT):
         if cn in POSES + ('UnitQuaternion',):
             N = 2 if cn in ('SO2', 'SE2') else 3
             As = singles(mk(cn, A))
-            P = rng.uniform(0.3, 2.0, size=(N, 5)) * rng.choice([-1, 1], size=(N, 5))
-            table = [[np.asarray(As[i] * P[:, j]).flatten() for j in range(5)] for i in range(5)]
+            P = rng.uniform(0.3, 2.0, size=(N, NMAX)) * rng.choice([-1, 1], size=(N, NMAX))
+            table = [[np.asarray(As[i] * P[:, j]).flatten() for j in range(NMAX)] for i in range(NMAX)]
             for m in LENS:
                 for n in LENS:
                     L = mk(cn, A[:m])
@@ -564,6 +565,100 @@ def operator_grid_pool(ctx, MT):
                     check_cell(ctx, MT, cn, '*points', m, n, res, table, [],
                                {'class': cn, 'op': 'pose*points', 'm': m, 'n_points': n, 'left_hex': [hexl(a) for a in A[:m]], 'points_hex': hexl(pts)},
                                right_kind='seq', dunder='__mul__')
+
+
+# --------------------------------------------------------------------------------------------- binary METHODS (not dunder operators)
+# Methods of the list-capable classes that combine two objects value by value.  The set is the UNION of
+#   (a) the methods recorded here, found by the enumeration below on the baseline tree (so that a method which STOPS
+#       using the helper -- e.g. inner() rewritten with np.dot -- is still held to the broadcasting rules), and
+#   (b) every public non-dunder method whose body (AST) calls self.binop / self.unop / self._op2 on the CURRENT tree
+#       (so that a newly vectorised method is not forgotten).
+# Other public methods that accept one same-class operand for single values (found by reflection) are probed and
+# reported in the evidence as a census only (they do not claim to be vectorised).
+VECTORISED_BINARY_METHODS = {('Quaternion', 'inner')}
+
+
+def helper_based_methods():
+    """(defining class name, method name) of public non-dunder methods whose body calls .binop/.unop/._op2 -- from the AST"""
+    import ast
+    import inspect
+    import textwrap
+    found = set()
+    seen = set()
+    for cls in CLASSES.values():
+        for k in cls.__mro__:
+            if not k.__module__.startswith('spatialmath') or k in seen or k.__name__ in ('SMUserList',):
+                continue
+            seen.add(k)
+            for name, obj in k.__dict__.items():
+                fn = obj.fget if isinstance(obj, property) else obj
+                if name.startswith('_') or not inspect.isfunction(fn):
+                    continue
+                try:
+                    tree = ast.parse(textwrap.dedent(inspect.getsource(fn)))
+                except (OSError, TypeError, SyntaxError):
+                    continue
+                for node in ast.walk(tree):
+                    if isinstance(node, ast.Call) and isinstance(node.func, ast.Attribute) and node.func.attr in ('binop', 'unop', '_op2'):
+                        found.add((k.__name__, name))
+    return found
+
+
+def same_class_binary_candidates(cn):
+    """public non-dunder methods of class cn, defined by the library (not by SMUserList/UserList), with exactly one required
+    positional parameter besides self"""
+    import inspect
+    out = []
+    cls = CLASSES[cn]
+    for name in dir(cls):
+        if name.startswith('_'):
+            continue
+        k = next((c for c in cls.__mro__ if name in c.__dict__), None)
+        if k is None or not k.__module__.startswith('spatialmath') or k.__name__ == 'SMUserList':
+            continue
+        fn = k.__dict__[name]
+        if not inspect.isfunction(fn):
+            continue
+        ps = list(inspect.signature(fn).parameters.values())[1:]
+        req = [q for q in ps if q.default is inspect.Parameter.empty and q.kind in (q.POSITIONAL_ONLY, q.POSITIONAL_OR_KEYWORD)]
+        if len(req) == 1:
+            out.append((k.__name__, name))
+    return out
+
+
+def binary_method_grid(ctx, MT):
+    rng = ctx.rng
+    helper = helper_based_methods()
+    vectorised = set(VECTORISED_BINARY_METHODS) | helper
+    ctx.stats['binary-methods:helper-based (AST)'] = sorted(f"{a}.{b}" for a, b in helper)
+    ctx.stats['binary-methods:held-to-the-property'] = sorted(f"{a}.{b}" for a, b in vectorised)
+    for cn in CLASSES:
+        A = [elem(cn, rng) for _ in range(NMAX)]
+        B = [elem(cn, rng) for _ in range(NMAX)]
+        As, Bs = singles(mk(cn, A)), singles(mk(cn, B))
+        for dcls, name in same_class_binary_candidates(cn):
+            label = f"{cn}.{name}(other)"
+            refs = [[call(lambda: getattr(As[i], name)(Bs[j])) for j in range(NMAX)] for i in range(NMAX)]
+            if not all(r[0] == 'ok' and single_value(r[1]) is not None for row in refs for r in row):
+                continue        # not a method that takes one same-class operand
+            table = [[single_value(r[1]) for r in row] for row in refs]
+            is_vec = (dcls, name) in vectorised
+            for m in LENS:
+                for n in LENS:
+                    L, R = mk(cn, A[:m]), mk(cn, B[:n])
+                    with Spy() as spy:
+                        res = call(lambda: getattr(L, name)(R))
+                    if is_vec:
+                        check_cell(ctx, MT, cn, '.' + name, m, n, res, table, spy.log,
+                                   {'class': cn, 'method': name, 'm': m, 'n': n, 'left_hex': [hexl(a) for a in A[:m]], 'right_hex': [hexl(b) for b in B[:n]]},
+                                   dunder=name)
+                    elif (m, n) != (1, 1):
+                        want = blen(m, n)
+                        good = (m == n or m == 1 or n == 1) and res[0] == 'ok' and len(vals(res[1])) == want and \
+                            all(same(vals(res[1])[q], table[pick(q, m)][pick(q, n)]) for q in range(want))
+                        if not good:
+                            ctx.stats.setdefault('census:single-value-only-methods', {})[label] = \
+                                ('raises ' + exn_name(res[1])) if res[0] == 'raise' else 'not element-wise'
 
 
 # --------------------------------------------------------------------------------------------- method grid
@@ -686,7 +781,7 @@ def method_grid(ctx, MT, census_out=None):
 def method_grid_pool(ctx, MT, census_out=None):
     rng = ctx.rng
     for cn in CLASSES:
-        A = [elem(cn, rng) for _ in range(5)]
+        A = [elem(cn, rng) for _ in range(NMAX)]
         for label, attr, f, shape, cat in methods_of(cn):
             site = f"{definer(cn, attr)}.{attr}"
             what = f"{cn}.{label}" + (f" (defined by {site})" if not site.startswith(cn + '.') else '')
@@ -769,11 +864,11 @@ def method_grid_pool(ctx, MT, census_out=None):
 def interp_grid(ctx, MT):
     """X.interp(s) for X holding m values and s holding k values (m, k in 1..5)"""
     rng = ctx.rng
-    S = np.array([0.15, 0.3, 0.45, 0.6, 0.8])
+    S = np.array([0.15, 0.3, 0.45, 0.6, 0.8, 0.9])
     for cn in POSES + ('UnitQuaternion',):
-        A = [elem(cn, rng) for _ in range(5)]
+        A = [elem(cn, rng) for _ in range(NMAX)]
         As = singles(mk(cn, A))
-        refs = [[call(lambda: As[i].interp(float(S[j]))) for j in range(5)] for i in range(5)]
+        refs = [[call(lambda: As[i].interp(float(S[j]))) for j in range(NMAX)] for i in range(NMAX)]
         if not all(r[0] == 'ok' and single_value(r[1]) is not None for row in refs for r in row):
             bad = next(r[1] for row in refs for r in row if r[0] != 'ok')
             ctx.stats.setdefault('out-of-scope', []).append(f"{cn}.interp(s): the single-valued call itself raises {exn_name(bad)} (C11)")
@@ -814,11 +909,11 @@ def interp_grid(ctx, MT):
 def twist_exp_grid(ctx, MT):
     """Twist.exp(theta) with theta a vector: m twists x k angles"""
     rng = ctx.rng
-    TH = np.array([0.3, 0.5, 0.7, 0.9, 1.1])
+    TH = np.array([0.3, 0.5, 0.7, 0.9, 1.1, 1.3])
     for cn in ('Twist3', 'Twist2'):
-        A = [elem(cn, rng) for _ in range(5)]
+        A = [elem(cn, rng) for _ in range(NMAX)]
         As = singles(mk(cn, A))
-        refs = [[call(lambda: As[i].exp(float(TH[j]))) for j in range(5)] for i in range(5)]
+        refs = [[call(lambda: As[i].exp(float(TH[j]))) for j in range(NMAX)] for i in range(NMAX)]
         if not all(r[0] == 'ok' and single_value(r[1]) is not None for row in refs for r in row):
             ctx.stats.setdefault('out-of-scope', []).append(f"{cn}.exp(theta): the single-valued call itself raises")
             continue
@@ -848,6 +943,8 @@ def run(ctx):
         helper_correspondence(ctx, MT)
     with ctx.timed('oracle:operators'):
         operator_grid(ctx, MT)
+        for _ in range(ctx.n(1, 8)):
+            binary_method_grid(ctx, MT)
     cen = []
     with ctx.timed('oracle:methods'):
         method_grid(ctx, MT, cen)
